@@ -2,3 +2,6 @@
 import Tcell.Model.Cell
 import Tcell.Model.CellOps
 import Tcell.Props.C08
+import Tcell.Model.Views
+import Tcell.Model.ViewsTree
+import Tcell.Props.C20
